@@ -242,6 +242,10 @@ func LibGoroutines(pkg string) []string {
 // left or the poll budget is used up; it returns the remaining goroutines.
 func WaitNoLibGoroutines(pkg string, polls int) []string {
 	var left []string
+	// The common outcome (nothing left) returns at once; the budget only matters when something
+	// is left, and then it must be generous: on a loaded machine a goroutine that has already
+	// passed its last synchronisation point can wait a long time for a CPU before it is gone.
+	polls *= 10
 	for i := 0; i < polls; i++ {
 		left = LibGoroutines(pkg)
 		if len(left) == 0 {
